@@ -131,12 +131,13 @@ def main(tier, seed, replay=None):
         'layout kinds stand for all layouts of their class']
     build_scratch()
     rng = random.Random(seed)
-    themes = gen.run_themes(THEMES, tier, rep, jobs=6)
+    themes = gen.run_themes(THEMES, tier, rep, jobs=6, overrides={
+        n: {'layer2': 'asi'} for n in THEMES})
     # deep random derivations (tlc -simulate): terminators nested in
     # function bodies inside statement headers, calls, initialisers
     sr, deep = gen.simulate(3000 if tier == 'quick' else 60000, maxtok=16,
                             maxnl=2, seed=seed + 5, sigma=DEEP_SIGMA,
-                            workers=4)
+                            workers=4, layer2='asi')
     rep.add_tlc(sr)
     themes['deep'] = sorted(deep, key=lambda s: s.key())
     rep.notes['deep_sentences'] = len(deep)
@@ -177,15 +178,40 @@ def main(tier, seed, replay=None):
                 for t in s.tokens:
                     t.gapkind = core.GAP_CLASS[k] if t.nl else 'SP'
                 exp = spec_tree(s)
-                work.append((text, exp, []))
-                meta.append((s, k, text, 'omitted',
-                             [t.start for t in s.tokens]))
+                starts = [t.start for t in s.tokens]
+                if s.model is not None:
+                    # AsiImpl.tla: <<token index, path>> per semicolon
+                    work.append((text, exp, [], {
+                        'starts': starts,
+                        'model': [m[0] for m in s.model]}))
+                else:
+                    work.append((text, exp, []))
+                meta.append((s, k, text, 'omitted', starts))
                 if has_v and k == 'lf':
                     t2 = with_explicit_semicolons(s)
                     work.append((t2, exp, []))
                     meta.append((s, k, t2, 'explicit', None))
-    res = impl.pmap(core.judge, work, chunk=400)
+    res3 = impl.pmap(core.judge_with_model, work, chunk=400)
     rep.mark('positive')
+    res = []
+    drift = 0
+    compared = 0
+    for w, r3 in zip(work, res3):
+        if r3 and r3[0] == 'timeout':
+            res.append(r3)
+            continue
+        res.append(r3[0])
+        if len(w) > 3:
+            compared += 1
+            if r3[1]:
+                drift += 1
+                if drift <= 3:
+                    rep.notes.setdefault('drift_examples', []).append(
+                        {'text': w[0], 'model': w[3]['model'],
+                         'code': r3[2]})
+    # spec -> code conformance of AsiImpl.tla (reported, not a verdict)
+    rep.notes['drift_model_vs_code'] = drift
+    rep.notes['compared_with_model'] = compared
     for (s, k, text, form, starts), r in zip(meta, res):
         rep.count('evaluations')
         if r is None:
